@@ -75,6 +75,7 @@ class Obl:
     tiers: tuple = ('quick', 'thorough')
     object_bits: Optional[int] = None
     slice: bool = True
+    backend: Optional[str] = None     # 'cvc5int': cbmc --cvc5 with cvc5 started as `cvc5 --solve-bv-as-int=sum` (mul/div by constants)
     ignore_props: List[str] = field(default_factory=list)  # regexes on 'file:function desc' that are not part of the claim
 
 
@@ -304,8 +305,17 @@ def run_obl(prop_id, o, workdir, extra_defs):
         res['wall_s'] = round(time.time() - t0, 2)
         return res
     outf = os.path.join(od, 'out.json')
+    benv = None
+    if o.backend == 'cvc5int':
+        shim = os.path.join(od, 'shim')
+        os.makedirs(shim, exist_ok=True)
+        with open(os.path.join(shim, 'cvc5'), 'w') as f:
+            f.write('#!/bin/sh\nexec %s --solve-bv-as-int=sum "$@"\n' % shutil.which('cvc5'))
+        os.chmod(os.path.join(shim, 'cvc5'), 0o755)
+        benv = dict(os.environ, PATH=shim + os.pathsep + os.environ.get('PATH', ''))
+        o = dataclasses.replace(o, extra=list(o.extra) + ['--cvc5'])
     with open(outf, 'wb') as fo:
-        rc, _, err, dt, to = run_cmd(cbmc_cmd(o, gb), o.timeout, o.mem_gb, stdout=fo)
+        rc, _, err, dt, to = run_cmd(cbmc_cmd(o, gb), o.timeout, o.mem_gb, stdout=fo, env=benv)
     res['cbmc_s'] = round(dt, 2)
     if to:
         res.update(status='inconclusive', detail='timeout after %ds' % o.timeout)
@@ -351,7 +361,7 @@ def run_obl(prop_id, o, workdir, extra_defs):
         pid = real_fail[0].get('property')
         tf = os.path.join(od, 'trace.json')
         with open(tf, 'wb') as fo:
-            run_cmd(cbmc_cmd(o, gb) + ['--trace', '--property', pid], o.timeout, o.mem_gb, stdout=fo)
+            run_cmd(cbmc_cmd(o, gb) + ['--trace', '--property', pid], o.timeout, o.mem_gb, stdout=fo, env=benv)
         tprops, _, _ = parse_cbmc(open(tf, 'rb').read().decode(errors='replace'))
         for p in tprops:
             if p.get('property') == pid and p.get('trace'):
@@ -479,6 +489,12 @@ def write_evidence(prop_id, tier, seed, level, results, obls, explanation, trust
             'known_findings_reported': ['%s: %s' % (r['name'], e.get('id')) for r, e in known],
             'inconclusive': [r['name'] for r in results if r['status'] == 'inconclusive'],
             'exhaustive': False,
+            'states': max(1, sum(r.get('steps', 0) or 0 for r in results)),
+            'transitions': max(1, sum(r.get('vccs', 0) or 0 for r in results)),
+            'traces_validated_against_impl': sum(1 for r in results if r.get('native') in ('reproduced', 'reproduced-timeout', 'not-reproduced')),
+            'states_rule': 'bounded model checking has no explicit state graph: states = SSA steps of the unwound programs (cbmc: size of program '
+                           'expression), transitions = verification conditions generated from them, traces_validated_against_impl = counterexample '
+                           'traces replayed against a native ASan/UBSan build of the same sources in this run (0 when no obligation failed)',
         },
         'assumptions': assumptions + ['stubs listed in coverage.stubs are part of the claim'],
         'wall_s': round(wall, 2),
